@@ -140,7 +140,8 @@ Section Run.
     let k1 := w_st (w_task k (Some (t, rest))) new in
     let s' := chg mx (upd_w s w (w_task k (Some (t, rest)))) w (w_task k (Some (t, rest))) new in
     exists R', INV mx specs s' d (trk_chg tr w new t) (Some w) (Some t) Q R' /\
-               nth_error (c_ws s') w = Some k1 /\ (mm s' Q R' <= mm s Q R + 1)%nat /\ frame s s' /\
+               nth_error (c_ws s') w = Some k1 /\
+               (mm s' Q R' <= mm s Q R + match new with Running => 0 | _ => 1 end)%nat /\ frame s s' /\
                status (trk_chg tr w new t) t = Active /\
                match new with Syscall _ _ _ => GG mx s' Q R' | _ => True end.
   Proof.
@@ -440,7 +441,7 @@ Section Run.
     spec_sleeper specs t n T lg -> status tr t = Asleep T ->
     (qcost (c_tb s) Q + length lg + 3 < fuel)%nat ->
     exists s' e out, wloop fuel (mkx mx s) w acc = (mkx mx s', acc ++ e, out) /\
-                     run_post s Q R 2 s' (fold_left pev15 e tr) out.
+                     run_post s Q R 1 s' (fold_left pev15 e tr) out.
   Proof.
     intros H Hk Hst [Hkt Hdd Hkp] Hsp Hasl Hfuel.
     assert (t < length specs)%nat as Htl by (apply nth_error_Some; unfold spec_sleeper in Hsp; congruence).
@@ -602,7 +603,7 @@ Section Run.
     INV mx specs s d tr (Some w) (Some t) Q R ->
     nth_error (c_ws s) w = Some k -> k_st k = Syscall 0 n STimeout -> hold k t n lg ->
     spec_sleeper specs t n T lg -> status tr t = Asleep T ->
-    exists s3 e r d', k_resume (mkx mx s) w = (mkx mx s3, r, e) /\ resume_post s Q R 2 s3 (fold_left pev15 e tr) r d'.
+    exists s3 e r d', k_resume (mkx mx s) w = (mkx mx s3, r, e) /\ resume_post s Q R 1 s3 (fold_left pev15 e tr) r d'.
   Proof.
     intros H Hk Hst Hh Hsp Hasl.
     assert (tr_running (c_clock s) (k_st k) = Some None) as Htr by (rewrite Hst; reflexivity).
@@ -622,7 +623,7 @@ Section Run.
       assert (wloop (wfuel (mkx mx (fst (pre_resume mx s w k None)))) (mkx mx (fst (pre_resume mx s w k None))) w
                     (snd (pre_resume mx s w k None)) = (mkx mx s', snd (pre_resume mx s w k None) ++ e, out)) as Hwl
         by (rewrite Hpre; cbn [fst snd]; exact Heq).
-      destruct (resume_finish s k None s Q R 2 s' e out (i_wp _ _ _ _ _ _ _ _ _ H w) Hk Hstk Htr (h_dead _ _ _ _ Hh) Hwl tr Hpost)
+      destruct (resume_finish s k None s Q R 1 s' e out (i_wp _ _ _ _ _ _ _ _ _ H w) Hk Hstk Htr (h_dead _ _ _ _ Hh) Hwl tr Hpost)
         as (s3 & e3 & r & d' & Hres & Hrp).
       + rewrite Hpre in Hres. cbn [snd app] in Hres. exists s3, e3, r, d'. split; [exact Hres | exact Hrp].
   Qed.
